@@ -488,9 +488,9 @@ func (fc *FnCtx) execInstr(in ssa.Instruction, st *State) {
 		dk, vk, ck := fc.mapKeys(mt)
 		ks, vs := fc.so.Sort(mt.Key()), fc.so.Sort(mt.Elem())
 		d := fc.heapGet(st, dk, ArraySort("Ref", ArraySort(ks, "Bool")))
-		fc.heapSet(st, dk, tb.Store(d, r, tb.mk(kApp, "(as const "+ArraySort(ks, "Bool")+")", ArraySort(ks, "Bool"), tb.False())))
+		fc.heapSet(st, dk, tb.Store(d, r, tb.ConstArray(ks, "Bool", tb.False())))
 		v := fc.heapGet(st, vk, ArraySort("Ref", ArraySort(ks, vs)))
-		fc.heapSet(st, vk, tb.Store(v, r, tb.mk(kApp, "(as const "+ArraySort(ks, vs)+")", ArraySort(ks, vs), fc.so.Zero(mt.Elem()))))
+		fc.heapSet(st, vk, tb.Store(v, r, tb.ConstArray(ks, vs, fc.so.Zero(mt.Elem()))))
 		c := fc.heapGet(st, ck, ArraySort("Ref", "Int"))
 		fc.heapSet(st, ck, tb.Store(c, r, tb.Int(0)))
 		fc.regs[in] = r
@@ -503,7 +503,7 @@ func (fc *FnCtx) execInstr(in ssa.Instruction, st *State) {
 		es := fc.so.Sort(et)
 		key := "E:" + es
 		m := fc.heapGet(st, key, ArraySort("Ref", ArraySort("Int", es)))
-		fc.heapSet(st, key, tb.Store(m, r, tb.mk(kApp, "(as const "+ArraySort("Int", es)+")", ArraySort("Int", es), fc.so.Zero(et))))
+		fc.heapSet(st, key, tb.Store(m, r, tb.ConstArray("Int", es, fc.so.Zero(et))))
 		fc.regs[in] = tb.App("mk_slice", "Slice", r, tb.Int(0), ln, cp)
 	case *ssa.MapUpdate:
 		fc.mapUpdate(in, st)
@@ -571,7 +571,7 @@ func (fc *FnCtx) freshRef(st *State, hint string) *Term {
 	r := tb.Fresh(hint, "Ref")
 	al := fc.heapGet(st, "alloc", ArraySort("Ref", "Bool"))
 	tb.DeclFun("emb_tag", []string{"Ref"}, "Int")
-	fc.assume(st, tb.And(tb.Not(tb.Eq(r, tb.Const("null", "Ref"))), tb.Not(tb.Select(al, r)), tb.Eq(tb.App("emb_tag", "Int", r), tb.Int(0))))
+	fc.assume(st, tb.And(tb.Not(tb.Eq(r, tb.Const("null", "Ref"))), tb.Not(tb.Select(al, r)), tb.Eq(tb.App("emb_tag", "Int", r), tb.Int(0)), tb.Eq(fc.objBase(r), r)))
 	fc.heapSet(st, "alloc", tb.Store(al, r, tb.True()))
 	return r
 }
@@ -601,7 +601,8 @@ func (fc *FnCtx) unop(in *ssa.UnOp, st *State) Val {
 		v := fc.load(a, st)
 		if v.Sort == "Ref" && a.Kind != aLocal {
 			al := fc.heapGet(st, "alloc", ArraySort("Ref", "Bool"))
-			fc.assume(st, tb.Or(tb.Eq(v, tb.Const("null", "Ref")), tb.Select(al, v)))
+			_ = al
+			fc.assume(st, fc.alive(st, v))
 		}
 		return v
 	case token.NOT:
